@@ -37,7 +37,8 @@ RULE = ("structured enumeration + seeded sampling of scripted runs: request scri
         "realization_min_success 0..R, perturbation_min_success 1..P, allow_nan on/off, max_functions None and every value up to "
         "the run length + 1 with batches of 1-3 vectors, one or two objectives with the NaN of a failed row placed in the first "
         "objective only / the second only / the constraint only / everywhere, equal or unequal positive realization weights, "
-        "metadata and explicit start vectors, the same step object run twice; a stream of gradient evaluations whose realizations "
+        "metadata and explicit start vectors, a variable mask, a configured filter nothing refers to, optimizer.stdout redirection, the "
+        "same step object run twice; a stream of gradient evaluations whose realizations "
         "all fall below perturbation_min_success with realization_min_success = 0; nested optimizations of depth 2 (random) and "
         "depth 3 (every leaf position x {abort, exception, all-failed, too-few} x tracker empty / holding a result); plus a random "
         "stream with R,P <= 3 and several faulty evaluations.  Non-trivial = the run contains at least one fault (NaN, exception, "
@@ -55,7 +56,8 @@ ASSUMPTIONS = [
 TRUSTED = [
     "the scripted optimizer plug-in, fault-injecting evaluator and recording observer of harness/props/C14.py",
     "transforms (variable / objective / constraint scalers), the number of objectives, the position of the NaN inside a failed row, "
-    "the realization weights, metadata and explicit start vectors are exercised by the real code only; the model does not have them "
+    "the realization weights, metadata, explicit start vectors, a variable mask, unused filter entries and output redirection are "
+    "exercised by the real code only; the model does not have them "
     "(the compared facts - outcome, results delivered, events - must not depend on them)",
     "the BasicOptimizer runs register the scripted optimizer with the plug-in manager of the object's private OptimizerContext",
 ]
@@ -91,7 +93,8 @@ def _env():
             self.spec = Scripted.queue.pop(0)
 
         def start(self, x0):
-            nvar = x0.size
+            # with a variable mask the back-end works on the free variables only (the first one)
+            nvar = 1 if self.spec["case14"].get("mask") else x0.size
             ev = Scripted.evaluator
             saved = (ev.pending, ev.pcase)         # a nested run must not disturb the pending outer request
             try:
@@ -223,8 +226,17 @@ def make_config(case, maxf="case"):
         cfg["realization_filters"] = [{"method": f[0], "options": opts}]
         cfg["objectives"]["realization_filters"] = [0] * nobj
         cfg["nonlinear_constraints"]["realization_filters"] = [0]
+    if case.get("unused_filter"):
+        # a configured filter that no objective or constraint refers to (it would select nothing): must have no effect
+        cfg.setdefault("realization_filters", []).append({"method": "sort-objective", "options": {"sort": [0], "first": R - 1, "last": R - 1}})
+        cfg["objectives"].setdefault("realization_filters", [-1] * nobj)
+        cfg["nonlinear_constraints"].setdefault("realization_filters", [-1])
     if case.get("estimator", "mean") == "stddev":
         cfg["function_estimators"] = [{"method": "stddev"}]
+    if case.get("mask"):
+        cfg["variables"]["mask"] = [True, False]
+    if case.get("redirect"):
+        cfg["optimizer"]["stdout"] = case["redirect"]
     return cfg
 
 
@@ -379,6 +391,15 @@ def run_impl(case):
 
     top_step = [None]
     transforms = make_transforms(case["transform"], nobj)
+    tmp, fds_before = None, None
+    if case.get("redirect"):
+        # optimizer.stdout: the optimizer's output is redirected to a file, evaluations run with the redirection suspended
+        import os
+        import tempfile
+        fd, tmp = tempfile.mkstemp(prefix="c14-stdout-", dir="/tmp")
+        os.close(fd)
+        fds_before = set(os.listdir("/proc/self/fd"))
+        case = {**case, "redirect": tmp}
     cfg = make_config(case)
     start = [0.25, 0.0] if case.get("explicit") else None
     plans = []
@@ -469,6 +490,17 @@ def run_impl(case):
     except BaseException as e:  # noqa: BLE001 - the class is the observation
         outcome = ["exc", type(e).__name__]
         basic = None if case["step"] != "basic" else {"has_results": None, "variables_ok": True}
+    if tmp is not None:
+        import os
+        for fd in set(os.listdir("/proc/self/fd")) - fds_before:       # descriptors the redirection left open
+            try:
+                os.close(int(fd))
+            except OSError:
+                pass
+        try:
+            os.unlink(tmp)
+        except OSError:
+            pass
     return {"outcome": outcome, "delivered": delivered, "groups": groups, "events": events, "calls": evaluator.calls,
             "aborted": [bool(p.aborted) for p in plans], "transformed_ok": shapes_ok[0], "metadata_ok": meta_ok[0],
             "record": evaluator.record, "second": second, "basic": basic}
@@ -903,6 +935,12 @@ def _dress(case, rng):
     if basic:
         c["step"] = "basic"
         return c
+    if rng.random() < 0.2:
+        c["mask"] = True
+    if rng.random() < 0.15 and c["R"] >= 1:
+        c["unused_filter"] = True
+    if c["step"] == "optimizer" and not nested and rng.random() < 0.03:
+        c["redirect"] = True
     if rng.random() < 0.25:
         c["metadata"] = True
     if c["step"] == "optimizer" and rng.random() < 0.25:
@@ -1146,7 +1184,7 @@ def _tree3(tier, rng):
                 for fault in (kinds if pos is not None else [None]):
                     if not thorough and rng.random() < 0.55:
                         continue
-                    for _ in range(3 if thorough else 1):
+                    for _ in range(8 if thorough else 1):
                         script, subs = build(pos, fault)
                         order = list(range(R))
                         rng.shuffle(order)
@@ -1262,7 +1300,7 @@ def features(case, obs):
             "nanloc": f"{case.get('nobj', 1)}obj/{case.get('nanloc', 'all')}", "excls": _excls(case) if info["decider"] == "raise" else "-",
             "weights": ("with-zero" if case.get("weights") and 0 in case["weights"] else
                         "unequal" if case.get("weights") and len(set(case["weights"])) > 1 else "equal"),
-            "extras": ",".join(k for k in ("metadata", "explicit", "repeat") if case.get(k)) or "-",
+            "extras": ",".join(k for k in ("metadata", "explicit", "repeat", "mask", "unused_filter", "redirect") if case.get(k)) or "-",
             "grad_all_failed_by_pmin": (f"rmin0={case['rmin'] == 0},allow_nan={case['allow_nan']}" if _grad_all_failed(case) else "-"),
             "batched_budget": bool(case.get("maxf") is not None and any(r["batch"] > 1 for r in case["script"]))}
 
@@ -1282,7 +1320,7 @@ def shrink(case):
             if len(sc) > 1:
                 yield {**case, "nested": {**n, "scripts": n["scripts"][:i] + [sc[:-1]] + n["scripts"][i + 1:]}}
         return
-    for k in ("repeat", "metadata", "explicit", "weights"):
+    for k in ("repeat", "metadata", "explicit", "weights", "mask", "unused_filter", "redirect"):
         if case.get(k):
             yield {kk: v for kk, v in case.items() if kk != k}
     if case["step"] == "basic":
